@@ -79,8 +79,14 @@ TypeViolations(W, f, r) ==
     ELSE IF Registered(el) THEN {}                                   \* upper-case spelling of a registered extension: free
     ELSE (IF HdrV(r, "content-type") = "application/octet-stream" THEN {} ELSE {"C02.content_type_default"})
 
+\* reserved names answered by a controller that serves "the file of that name in the root if present": when the
+\* lookup selects a file for them, the letter of C02 applies like for any other path (Router pins the rest)
+ReservedAsset(q) == q.segs = <<>> \/ q.segs = <<"">>
+                    \/ (Len(q.segs) = 1 /\ q.segs[1] \in {"style.css", "script.js", "favicon.svg"})
+Exempt(W, q) == Reserved(q) /\ ~(ReservedAsset(q) /\ Lookup(W, q.segs).sel \in {"file", "index"})
+
 C02Violations(W, q, r) ==
-    IF ~(q.method = "GET" /\ PlainPath(q) /\ ~q.range.present /\ ~Reserved(q)) THEN {}
+    IF ~(q.method = "GET" /\ PlainPath(q) /\ ~q.range.present /\ ~Exempt(W, q)) THEN {}
     ELSE LET L == Lookup(W, q.segs) IN
          CASE L.sel \in {"file", "index", "html"} ->
                 (IF r.status = 200 THEN {} ELSE {"C02.status_not_200"})
